@@ -565,9 +565,10 @@ def collection_equality_rule(F, rep):
     if h is None:
         rep.missing_anchor(rid, name)
         return
-    fl = hirflow.Flow(h)
+    # private helpers of the same module (the list / context branches extracted into functions) are expanded at their call sites
+    fl = hirflow.Flow(h, inline=lambda callee: F.hir.get(callee) if (callee or "").startswith(B) and callee != name and "{closure" not in callee else None)
     seen = set()
-    for d, cond, line in fl.returns:
+    for d, cond, line in list(fl.returns) + [(d2, c2, l2) for d2, c2, l2, _ in fl.helper_returns]:
         if d != ("ctor", "core::option::Option::Some", [("lit", True)]):
             continue
         kinds = [c for cd in cond for c in cd[1] if isinstance(c, str) and c.startswith("dmntk_feel::values::Value::") and cd[2] is True]
